@@ -35,8 +35,20 @@ func (c *fctx) expr(e ast.Expr, want string) (string, string) {
 			if n, err := strconv.ParseInt(x.Value, 0, 64); err == nil {
 				return strconv.FormatInt(n, 10), "Z"
 			}
+		case token.CHAR:
+			if s, err := strconv.Unquote(x.Value); err == nil && len(s) >= 1 {
+				if r := []rune(s); len(r) == 1 && r[0] < 256 {
+					return strconv.Itoa(int(r[0])), "Z"
+				}
+			}
 		case token.STRING:
-			if s, err := strconv.Unquote(x.Value); err == nil {
+			if s, err := strconv.Unquote(x.Value); err == nil && t.unit.bytestr {
+				var bs []string
+				for i := 0; i < len(s); i++ {
+					bs = append(bs, strconv.Itoa(int(s[i])))
+				}
+				return "[" + strings.Join(bs, "; ") + "]", "list Z"
+			} else if err == nil {
 				return coqString(s, x, t), "string"
 			}
 		}
@@ -219,7 +231,7 @@ func (c *fctx) binary(x *ast.BinaryExpr) (string, string) {
 		}
 		a, ta := c.expr(l, "")
 		b, tb := c.expr(r, ta)
-		eq := map[string]string{"Z": "Z.eqb", "string": "String.eqb", "bool": "Bool.eqb"}[ta]
+		eq := map[string]string{"Z": "Z.eqb", "string": "String.eqb", "bool": "Bool.eqb", "list Z": "bytes_eqb"}[ta]
 		if eq == "" && t.isOpaque(ta) {
 			eq = t.svar(ta+"_eqb", ta+" -> "+ta+" -> bool", x)
 		}
@@ -325,6 +337,17 @@ func (c *fctx) call(x *ast.CallExpr, want string) (string, string) {
 	name := t.src(x.Fun)
 	arg := func(i int, want string) (string, string) { v, ty := c.expr(x.Args[i], want); return paren(v), ty }
 	switch {
+	case t.unit.bytestr && (name == "strings.HasPrefix" || name == "strings.Index") && len(x.Args) == 2: // Lib/GoLib.v
+		a, _ := arg(0, "list Z")
+		b, _ := arg(1, "list Z")
+		if name == "strings.Index" {
+			return "bytes_index " + a + " " + b, "Z"
+		}
+		return "bytes_has_prefix " + a + " " + b, "bool"
+	case t.unit.bytestr && name == "strings.IndexByte" && len(x.Args) == 2:
+		a, _ := arg(0, "list Z")
+		b, _ := arg(1, "Z")
+		return "bytes_index_byte " + a + " " + b, "Z"
 	case name == "len" && len(x.Args) == 1:
 		v, ty := arg(0, "")
 		if ty == "string" {
